@@ -67,3 +67,7 @@ def jhash(obj) -> str:
 
 def shash(s: str) -> str:
     return hashlib.sha1(s.encode()).hexdigest()[:16]
+
+
+class CaseTimeout(BaseException):
+    """raised by the per-case SIGALRM watchdog (inconclusive, never a verdict)"""
